@@ -24,7 +24,7 @@ RULE = ('one real symbol per symbol size x scale {1,2,3,2.5,0.5; 4 and 8 for siz
         '(or refusal expected for scale < 1)')
 BOUNDS = {'quick': 'sizes M1-M4, 1-6, 7, 14, 21, 40', 'thorough': 'all 44 sizes'}
 ASSUMPTIONS = ['format readers written against the PNG / Netpbm / XBM / XPM specifications using only zlib, struct, re',
-               'colour domains as documented per format (alpha only for PNG; None where the format documents transparency)']
+               'colour domains as documented per format (alpha for PNG and PAM; None where the format documents transparency)']
 CHUNK = 1
 
 PNG_COL = [({}, '#000', '#fff'), (dict(dark='darkblue'), 'darkblue', '#fff'), (dict(dark='#abc', light='#123'), '#abc', '#123'),
@@ -54,7 +54,11 @@ COLORS = {
             (dict(dark='#123', light=None), '#123', None), (dict(dark=(10, 20, 30), light=None), (10, 20, 30), None), (dict(dark='gray', light=None), 'gray', None),
             (dict(dark=(10, 20, 30), light=(40, 50, 60)), (10, 20, 30), (40, 50, 60)),
             (dict(light='yellow'), '#000', 'yellow'), (dict(light='#eee'), '#000', '#eee'), (dict(dark='#333'), '#333', '#fff'),
-            (dict(dark='white', light='yellow'), 'white', 'yellow'), (dict(dark='gray', light=None), 'gray', None)],
+            (dict(dark='white', light='yellow'), 'white', 'yellow'), (dict(dark='gray', light=None), 'gray', None),
+            # colours with an alpha channel (RGB_ALPHA)
+            (dict(dark='#0a141e80'), '#0a141e80', '#fff'), (dict(light=(200, 210, 220, 128)), '#000', (200, 210, 220, 128)),
+            (dict(dark=(0, 0, 0, 0.5), light=None), (0, 0, 0, 0.5), None), (dict(dark=(0, 0, 0, 128), light=(255, 255, 255, 64)), (0, 0, 0, 128), (255, 255, 255, 64)),
+            (dict(dark='#fff8', light='#0008'), '#ffffff88', '#00000088')],
     'ppm': [({}, '#000', '#fff'), (dict(dark='red', light='tan'), 'red', 'tan'), (dict(dark='white', light='black'), 'white', 'black'),
             (dict(light='#eee'), '#000', '#eee'), (dict(dark='#333', light='yellow'), '#333', 'yellow')],
     'xbm': [({}, '#000', '#fff'), (dict(name='qr_code'), '#000', '#fff')],
